@@ -16,6 +16,10 @@ CLAIMED["C06"] = ("full at token level", "6/C06", "Lean 4 proof by structural in
   "C06_value: for EVERY well-formed tree of any depth with a defined value, the code's algorithm (queue construction then queue evaluation, real precedence table) returns the conventional value; literals in 3 bases/either case read back (C06_literal); ~ semantics (C06_invert). Tie: Gen.operatorPrecedence + streams S3 (real lexer+parser+evaluator on rendered trees with random spacing vs model on the real token list, Spec.eval oracle, classification tie, seven program contexts, arbitrary token lists with exact exception class) + S0 (Python & | ~).",
   "Scanner/parser classification of expression text is tied by stream (not yet by theorem); operators a context cannot lex are outside that context's claim; `/` has no evaluation rule and is rejected.")
 
+CLAIMED["C01"] = ("full", "6/C01", "Lean 4 proof: kernel evaluation (`decide +kernel`) of the whole regenerated opcode table against an independently transcribed 65c816 opcode matrix, of all 192 operand-syntax records, and of the frozen supported set; unbounded omega arithmetic for width inference and operand bytes; differential correspondence through the real scanner/parser/assembler",
+  "table_sound + syntax_sound + C01_sound (every mnemonic, syntax, suffix, every operand value: accepted => ISA opcode of the denoted shape at the ruled width + truncated LE value, nothing else), C01_rejects (undefined => rejected), supported_kept (all 227 supported encodings keep assembling for every fitting value). Tie: Gen.opcodeTable / Gen.indexMap + stream S2 (one-instruction programs over the complete mnemonic x 48 shapes x suffix x magnitude product in thorough; every table row quick) with the ISA oracle on the real code; S0 width rule.",
+  "Branch operands are C05's subject; negative operands without a suffix and `.l` with a value outside 0..2^24-1 carry no claim (DESIGN section 8). Spec/ISA.lean is a hand transcription of the WDC matrix guarded by two kernel-checked sanity theorems.")
+
 NOT_YET = {}
 
 def main():
